@@ -391,10 +391,10 @@ def shards(tier, seed):
     for k in range(len(LONGTAG)):
         sh.append((tier, "longtag", k))
     cases = list(trunc_cases(tier))
-    nshard = 31  # coprime with the case strides below, so heavy cases spread over shards
-    for s in range(nshard):
-        sh.append((tier, "trunc", s, nshard))
-    return sh
+    nshard = 61  # prime: coprime with the case strides below, so heavy cases spread over shards
+    heavy = [(tier, "trunc", s, nshard) for s in range(nshard)]
+    # longest-running shards first, so that the pool does not end on a straggler
+    return heavy + sh
 
 
 def run_shard(shard):
